@@ -36,6 +36,8 @@ def run(pid, cfg, repo, work, tier):
     for x in cfg.get('extra', []):
         if x['kind'] == 'sat_sites':
             out += sat_sites(repo, work, x)
+        elif x['kind'] == 'dispatch':
+            out += dispatch(repo, work, x)
         elif x['kind'] == 'kani':
             out += kani.run(repo, work, x, tier)
     return out
@@ -64,4 +66,46 @@ def sat_sites(repo, work, x):
                     "cmd": " ".join(cmd), "time_ms": int((time.time() - t0) * 1000 / max(1, len(sites)))})
     for r in res[1:]:
         r['cmd'] = None
+    return res
+
+
+KNOWN_SOLVERS = ["GroundedSemanticsSolver", "CompleteSemanticsSolver", "PreferredSemanticsSolver", "StableSemanticsSolver",
+                 "SemiStableSemanticsSolver", "StageSemanticsSolver", "IdealSemanticsSolver"]
+
+def dispatch(repo, work, x):
+    """syntactic obligations on the command line's dispatch (src/app/solve_command.rs): for the query handled by x['function'],
+    each semantics must be given to a solver type whose contract (or, for the types not under contract, whose documented
+    semantics) answers that query for that semantics -- x['allowed'][SEM] lists them. One obligation per semantics; a shape
+    the scan does not understand, or a solver type it does not know, is undecided, never a violation."""
+    import re
+    oj = os.path.join(work, 'dispatch.json')
+    cmd = [assemble.VX, 'dispatch', os.path.join(repo, 'src'), oj, x['file']]
+    t0 = time.time()
+    p = subprocess.run(cmd, capture_output=True, text=True)
+    if p.returncode != 0:
+        raise assemble.Undecided("dispatch scan failed: " + p.stderr.strip())
+    tables = [t for t in json.load(open(oj))['tables'] if t['function'] == x['function']]
+    if len(tables) != 1:
+        raise assemble.Undecided("dispatch scan: %d dispatch tables in fn %s of %s (expected one `let mut solver: Box<dyn ..> = match ..`)" % (len(tables), x['function'], x['file']))
+    t = tables[0]
+    res = []
+    for sem, allowed in sorted(x['allowed'].items()):
+        arms = [a for a in t['arms'] if re.search(r'(^|[^A-Za-z0-9_])Semantics\s*::\s*%s($|[^A-Za-z0-9_])' % sem, a['pattern'])]
+        wild = [a for a in t['arms'] if a['pattern'].strip() == '_' or not a['pattern'].strip().startswith('Semantics')]
+        name = "dispatch::%s::%s" % (x['function'], sem)
+        base = {"name": name, "backend": "syntactic(vx dispatch)", "cmd": " ".join(cmd) if not res else None,
+                "time_ms": int((time.time() - t0) * 1000 / max(1, len(x['allowed'])))}
+        # the first arm whose pattern names the semantics is the one taken (later ones are unreachable for it); a wildcard or
+        # other pattern anywhere in the table, or a guard on that arm, is outside what the scan understands
+        if len(arms) < 1 or arms[0]['guard'] or wild or arms[0]['ctor'] is None or arms[0]['ctor'] not in KNOWN_SOLVERS:
+            base.update({"status": "undecided", "msg": "dispatch shape not understood",
+                         "detail": "src/%s fn %s, semantics %s: %d arm(s), guards/wildcards or an unknown solver type -- undecided" % (x['file'], x['function'], sem, len(arms))})
+        elif arms[0]['ctor'] in allowed:
+            base.update({"status": "ok", "msg": "",
+                         "detail": "src/%s:%d fn %s: %s -> %s (allowed: %s)" % (x['file'], arms[0]['line'], x['function'], sem, arms[0]['ctor'], ', '.join(allowed))})
+        else:
+            base.update({"status": "fail", "msg": "%s-%s is dispatched to %s, whose answers are not those of the %s semantics for this query" % (x['query'], sem, arms[0]['ctor'], sem),
+                         "detail": "src/%s:%d fn %s: arm `%s` builds a %s; allowed for %s-%s: %s" % (x['file'], arms[0]['line'], x['function'], arms[0]['pattern'], arms[0]['ctor'], x['query'], sem, ', '.join(allowed)),
+                         "counterexample": {"site": "src/%s:%d" % (x['file'], arms[0]['line']), "query": "%s-%s" % (x['query'], sem), "solver": arms[0]['ctor']}})
+        res.append(base)
     return res
